@@ -25,6 +25,31 @@ def SrcVJP (fwd : ℝ → ℝ) (bwd : ℝ → ℝ → ℝ) (dom : ℝ → Prop) 
 
 theorem epsilon_c_eq : (Gen.epsilon_c : ℝ) = (epsilon : ℝ) := rfl
 
+/-! ### proof automation that does not depend on how the source spells a formula
+
+`formula_eq` unfolds every generated definition, reads `Transc.*` at ℝ, and closes the scalar identity by `ring` — so a source
+formula rewritten by commutativity / associativity / distribution, with renamed locals or another spelling of a literal, still
+checks; `lift_eq` does the same under `map` / `zipSame` / `bcast2`. -/
+theorem tr_exp (x : ℝ) : (Transc.exp x : ℝ) = Real.exp x := rfl
+theorem tr_log (x : ℝ) : (Transc.log x : ℝ) = Real.log x := rfl
+theorem tr_sqrt (x : ℝ) : (Transc.sqrt x : ℝ) = Real.sqrt x := rfl
+theorem tr_tanh (x : ℝ) : (Transc.tanh x : ℝ) = Real.tanh x := rfl
+theorem tr_pow (x y : ℝ) : (Transc.pow x y : ℝ) = x ^ y := rfl
+
+macro "unfold_gen" : tactic => `(tactic| simp only [Gen.add_forward, Gen.add_backward, Gen.mul_forward, Gen.mul_backward, Gen.pow_forward,
+  Gen.pow_backward, Gen.rpow_forward, Gen.rpow_backward, Gen.neg_forward, Gen.neg_backward, Gen.clone_forward, Gen.clone_backward,
+  Gen.exp_forward, Gen.exp_backward, Gen.log_forward, Gen.log_backward, Gen.sqrt_forward, Gen.sqrt_backward, Gen.relu_forward,
+  Gen.relu_backward, Gen.leaky_relu_forward, Gen.leaky_relu_backward, Gen.selu_forward, Gen.selu_backward, Gen.tanh_forward,
+  Gen.tanh_backward, Gen.sigmoid_forward, Gen.sigmoid_backward, Gen.mse_loss_forward, Gen.mse_loss_backward, Gen.bce_loss_forward,
+  Gen.bce_loss_backward, Gen.bce_with_logits_loss_forward, Gen.bce_with_logits_loss_backward,
+  tr_exp, tr_log, tr_sqrt, tr_tanh, tr_pow, epsilon_c_eq])
+macro "formula_eq" : tactic => `(tactic| first | rfl | (unfold_gen; first | rfl | ring | (push_cast; ring)))
+macro "unfold_model" : tactic => `(tactic| simp only [negForward, negBackward, expForward, expBackward, logForward, logBackward, sqrtForward,
+  sqrtBackward, powForward, powBackward, rpowForward, rpowBackward, addForward, mulForward, reluForward, reluBackward, leakyReluForward,
+  leakyReluBackward, seluForward, seluBackward, tanhForward, tanhBackward, sigmoidForward, sigmoidBackward, mseForward, indPos, indNonPos])
+macro "lift_eq" : tactic => `(tactic| first | rfl | (unfold_model; (first | rfl |
+  (congr 1 <;> (first | rfl | (funext _ _; formula_eq) | (funext _; formula_eq))))))
+
 /-! ## calculus on the source formulas -/
 
 theorem src_add_left (b : ℝ) : SrcVJP (fun a => Gen.add_forward a b) (fun g _ => (Gen.add_backward g).1) (fun _ => True) :=
@@ -34,10 +59,10 @@ theorem src_add_right (a : ℝ) : SrcVJP (fun b => Gen.add_forward a b) (fun g _
   fun x _ => ⟨1, by simpa [Gen.add_forward] using (hasDerivAt_id x).const_add a, fun g => by simp [Gen.add_backward]⟩
 
 theorem src_mul_left (b : ℝ) : SrcVJP (fun a => Gen.mul_forward a b) (fun g a => (Gen.mul_backward g a b).1) (fun _ => True) :=
-  fun x _ => ⟨b, by simpa [Gen.mul_forward] using (hasDerivAt_id x).mul_const b, fun g => by simp [Gen.mul_backward]⟩
+  fun x _ => ⟨b, by simpa [Gen.mul_forward] using (hasDerivAt_id x).mul_const b, fun g => by unfold_gen; ring⟩
 
 theorem src_mul_right (a : ℝ) : SrcVJP (fun b => Gen.mul_forward a b) (fun g b => (Gen.mul_backward g a b).2) (fun _ => True) :=
-  fun x _ => ⟨a, by simpa [Gen.mul_forward] using (hasDerivAt_id x).const_mul a, fun g => by simp [Gen.mul_backward]⟩
+  fun x _ => ⟨a, by simpa [Gen.mul_forward] using (hasDerivAt_id x).const_mul a, fun g => by unfold_gen; ring⟩
 
 theorem src_neg : SrcVJP Gen.neg_forward (fun g _ => Gen.neg_backward g) (fun _ => True) :=
   fun x _ => ⟨-1, by
@@ -52,33 +77,33 @@ theorem src_clone : SrcVJP Gen.clone_forward (fun g _ => Gen.clone_backward g) (
 /-- `x ** n`, any real exponent, on `x ≠ 0 ∨ 1 ≤ n` -/
 theorem src_pow (n : ℝ) : SrcVJP (fun x => Gen.pow_forward x n) (fun g x => Gen.pow_backward g x n) (fun x => x ≠ 0 ∨ 1 ≤ n) :=
   fun x hx => ⟨n * x ^ (n - 1), Real.hasDerivAt_rpow_const hx, fun g => by
-    show n * x ^ (n - 1) * g = g * (n * x ^ (n - 1)); ring⟩
+    show Gen.pow_backward g x n = g * (n * x ^ (n - 1)); formula_eq⟩
 
 /-- `n ** x`, base `n > 0`; the backward formula reads the forward result -/
 theorem src_rpow (n : ℝ) (hn : 0 < n) :
     SrcVJP (fun x => Gen.rpow_forward x n) (fun g x => Gen.rpow_backward g (Gen.rpow_forward x n) n) (fun _ => True) :=
   fun x _ => ⟨n ^ x * Real.log n, ((rpow_vjp n hn).1 x trivial), fun g => by
-    show (n ^ x * Real.log n) * g = g * (n ^ x * Real.log n); ring⟩
+    show Gen.rpow_backward g (Gen.rpow_forward x n) n = g * (n ^ x * Real.log n); formula_eq⟩
 
 theorem src_exp : SrcVJP Gen.exp_forward (fun g x => Gen.exp_backward g (Gen.exp_forward x)) (fun _ => True) :=
-  fun x _ => ⟨Real.exp x, Real.hasDerivAt_exp x, fun _ => rfl⟩
+  fun x _ => ⟨Real.exp x, Real.hasDerivAt_exp x, fun g => by show Gen.exp_backward g (Gen.exp_forward x) = g * Real.exp x; formula_eq⟩
 
 /-- `log(x + ε)` as written in the source, wherever `x + ε ≠ 0` -/
 theorem src_log : SrcVJP Gen.log_forward Gen.log_backward (fun x => x + (Gen.epsilon_c : ℝ) ≠ 0) :=
   fun x hx => ⟨1 / (x + (epsilon : ℝ)), log_vjp.1 x hx, fun g => by
-    show g / (x + (epsilon : ℝ)) = g * (1 / (x + (epsilon : ℝ))); ring⟩
+    show Gen.log_backward g x = g * (1 / (x + (epsilon : ℝ))); formula_eq⟩
 
 theorem src_sqrt : SrcVJP Gen.sqrt_forward (fun g x => Gen.sqrt_backward g (Gen.sqrt_forward x)) (fun x => 0 < x) :=
   fun x hx => ⟨1 / (2 * Real.sqrt x), sqrt_vjp.1 x hx, fun g => by
-    show g / (((2 : Nat) : ℝ) * Real.sqrt x) = g * (1 / (2 * Real.sqrt x)); push_cast; ring⟩
+    show Gen.sqrt_backward g (Gen.sqrt_forward x) = g * (1 / (2 * Real.sqrt x)); formula_eq⟩
 
 theorem src_tanh : SrcVJP Gen.tanh_forward (fun g x => Gen.tanh_backward g (Gen.tanh_forward x)) (fun _ => True) :=
   fun x _ => ⟨1 - Real.tanh x ^ 2, hasDerivAt_tanh x, fun g => by
-    show g * (1 - Real.tanh x * Real.tanh x) = g * (1 - Real.tanh x ^ 2); ring⟩
+    show Gen.tanh_backward g (Gen.tanh_forward x) = g * (1 - Real.tanh x ^ 2); formula_eq⟩
 
 theorem src_sigmoid : SrcVJP Gen.sigmoid_forward (fun g x => Gen.sigmoid_backward g (Gen.sigmoid_forward x)) (fun _ => True) :=
   fun x _ => ⟨(1 / (1 + Real.exp (-x))) * (1 - 1 / (1 + Real.exp (-x))), sigmoid_vjp.1 x trivial, fun g => by
-    show g * (1 / (1 + Real.exp (-x))) * (1 - 1 / (1 + Real.exp (-x))) = _; ring⟩
+    show Gen.sigmoid_backward g (Gen.sigmoid_forward x) = g * ((1 / (1 + Real.exp (-x))) * (1 - 1 / (1 + Real.exp (-x)))); formula_eq⟩
 
 theorem gen_relu_forward (x : ℝ) : Gen.relu_forward x = max 0 x := maxS_zero x
 
@@ -156,7 +181,7 @@ theorem src_mse (t : ℝ) : SrcVJP (fun p => Gen.mse_loss_forward p t) (fun g p 
     have h := ((hasDerivAt_id x).sub_const t).mul ((hasDerivAt_id x).sub_const t)
     refine h.congr_deriv ?_
     simp only [id]; ring, fun g => by
-    show g * ((2 : Nat) : ℝ) * (x - t) = g * (2 * (x - t)); push_cast; ring⟩
+    show Gen.mse_loss_backward g x t = g * (2 * (x - t)); formula_eq⟩
 
 /-- binary cross-entropy: the source formulas are the scalars `bceScalar` / `bceFactor` the model theorems are about -/
 theorem gen_bce_forward (p t : ℝ) : Gen.bce_loss_forward p t = bceScalar p t := by
@@ -202,31 +227,35 @@ theorem src_bce_logits (x y : ℝ) :
 
 /-! ## the tie: the model kernels apply the generated formulas element by element -/
 
-theorem lift_neg (a g : NDArray ℝ) : negForward a = a.map Gen.neg_forward ∧ negBackward g = g.map Gen.neg_backward := ⟨rfl, rfl⟩
-theorem lift_exp (a g o : NDArray ℝ) : expForward a = a.map Gen.exp_forward ∧ expBackward g o = zipSame Gen.exp_backward g o := ⟨rfl, rfl⟩
-theorem lift_log (a g : NDArray ℝ) : logForward a = a.map Gen.log_forward ∧ logBackward g a = zipSame Gen.log_backward g a := ⟨rfl, rfl⟩
-theorem lift_sqrt (a g o : NDArray ℝ) : sqrtForward a = a.map Gen.sqrt_forward ∧ sqrtBackward g o = zipSame Gen.sqrt_backward g o := ⟨rfl, rfl⟩
+theorem lift_neg (a g : NDArray ℝ) : negForward a = a.map Gen.neg_forward ∧ negBackward g = g.map Gen.neg_backward := ⟨by lift_eq, by lift_eq⟩
+theorem lift_exp (a g o : NDArray ℝ) : expForward a = a.map Gen.exp_forward ∧ expBackward g o = zipSame Gen.exp_backward g o := ⟨by lift_eq, by lift_eq⟩
+theorem lift_log (a g : NDArray ℝ) : logForward a = a.map Gen.log_forward ∧ logBackward g a = zipSame Gen.log_backward g a := ⟨by lift_eq, by lift_eq⟩
+theorem lift_sqrt (a g o : NDArray ℝ) : sqrtForward a = a.map Gen.sqrt_forward ∧ sqrtBackward g o = zipSame Gen.sqrt_backward g o := ⟨by lift_eq, by lift_eq⟩
 theorem lift_pow (a g : NDArray ℝ) (n : ℝ) :
-    powForward a n = a.map (fun x => Gen.pow_forward x n) ∧ powBackward g a n = zipSame (fun gv x => Gen.pow_backward gv x n) g a := ⟨rfl, rfl⟩
+    powForward a n = a.map (fun x => Gen.pow_forward x n) ∧ powBackward g a n = zipSame (fun gv x => Gen.pow_backward gv x n) g a := ⟨by lift_eq, by lift_eq⟩
 theorem lift_rpow (a g o : NDArray ℝ) (n : ℝ) :
-    rpowForward a n = a.map (fun x => Gen.rpow_forward x n) ∧ rpowBackward g o n = zipSame (fun gv ov => Gen.rpow_backward gv ov n) g o := ⟨rfl, rfl⟩
-theorem lift_add (a b : NDArray ℝ) : addForward a b = bcast2 Gen.add_forward a b := rfl
+    rpowForward a n = a.map (fun x => Gen.rpow_forward x n) ∧ rpowBackward g o n = zipSame (fun gv ov => Gen.rpow_backward gv ov n) g o := ⟨by lift_eq, by lift_eq⟩
+theorem lift_add (a b : NDArray ℝ) : addForward a b = bcast2 Gen.add_forward a b := by lift_eq
 theorem lift_mul (a b g : NDArray ℝ) : mulForward a b = bcast2 Gen.mul_forward a b ∧
     mulBackward g a b = (do
       let ga ← bcast2 (fun gv bv => (Gen.mul_backward gv 0 bv).1) g b
       let gb ← bcast2 (fun gv av => (Gen.mul_backward gv av 0).2) g a
-      pure (unbroadcast ga a.shape, unbroadcast gb b.shape)) := ⟨rfl, rfl⟩
+      pure (unbroadcast ga a.shape, unbroadcast gb b.shape)) := by
+  have h1 : (fun gv bv : ℝ => (Gen.mul_backward gv 0 bv).1) = (· * ·) := by funext x y; unfold_gen; ring
+  have h2 : (fun gv av : ℝ => (Gen.mul_backward gv av 0).2) = (· * ·) := by funext x y; unfold_gen; ring
+  refine ⟨by lift_eq, ?_⟩
+  rw [h1, h2]; rfl
 /-- `add_backward` multiplies the upstream gradient by `ones`: the model passes it on unchanged -/
 theorem lift_add_backward (g : ℝ) : Gen.add_backward g = (g, g) := by simp [Gen.add_backward]
 
-theorem lift_relu (a g : NDArray ℝ) : reluForward a = a.map Gen.relu_forward ∧ reluBackward g a = zipSame Gen.relu_backward g a := ⟨rfl, rfl⟩
+theorem lift_relu (a g : NDArray ℝ) : reluForward a = a.map Gen.relu_forward ∧ reluBackward g a = zipSame Gen.relu_backward g a := ⟨by lift_eq, by lift_eq⟩
 theorem lift_leaky_relu (a g : NDArray ℝ) (s : ℝ) : leakyReluForward a s = a.map (fun x => Gen.leaky_relu_forward x s) ∧
-    leakyReluBackward g a s = zipSame (fun gv x => Gen.leaky_relu_backward gv x s) g a := ⟨rfl, rfl⟩
+    leakyReluBackward g a s = zipSame (fun gv x => Gen.leaky_relu_backward gv x s) g a := ⟨by lift_eq, by lift_eq⟩
 theorem lift_selu (a g : NDArray ℝ) (α s : ℝ) : seluForward a α s = a.map (fun x => Gen.selu_forward x α s) ∧
-    seluBackward g a α s = zipSame (fun gv x => Gen.selu_backward gv x α s) g a := ⟨rfl, rfl⟩
-theorem lift_tanh (a g o : NDArray ℝ) : tanhForward a = a.map Gen.tanh_forward ∧ tanhBackward g o = zipSame Gen.tanh_backward g o := ⟨rfl, rfl⟩
+    seluBackward g a α s = zipSame (fun gv x => Gen.selu_backward gv x α s) g a := ⟨by lift_eq, by lift_eq⟩
+theorem lift_tanh (a g o : NDArray ℝ) : tanhForward a = a.map Gen.tanh_forward ∧ tanhBackward g o = zipSame Gen.tanh_backward g o := ⟨by lift_eq, by lift_eq⟩
 theorem lift_sigmoid (a g o : NDArray ℝ) : sigmoidForward a = a.map Gen.sigmoid_forward ∧
-    sigmoidBackward g o = zipSame Gen.sigmoid_backward g o := ⟨rfl, rfl⟩
+    sigmoidBackward g o = zipSame Gen.sigmoid_backward g o := ⟨by lift_eq, by lift_eq⟩
 theorem lift_mse (p t : NDArray ℝ) :
     mseForward p t = if p.shape = t.shape then some (zipSame Gen.mse_loss_forward p t) else none := rfl
 
